@@ -276,6 +276,9 @@ def fp_oracle(run, reader, firsts):
             err = rf.compare_runs(cfg, got, model.runs(s, e, cfg))
             if err:
                 out.append(({"class": "roundtrip_mismatch"}, "read(%d,%d): %s" % (s, e, err)))
+            blocks = reader.get_continuous_blocks(s, e, cfg["ch"])
+            if [(int(k), int(v)) for k, v in blocks.items()] != [(k, len(v)) for k, v in model.runs(s, e, cfg)]:
+                out.append(({"class": "blocks_mismatch"}, "get_continuous_blocks(%d,%d) = %s" % (s, e, dict(blocks))))
     # whole recording, and layout
     lo, hi = min(model.written), max(model.written)
     got = rf.read_runs(reader, cfg["ch"], lo, hi)
